@@ -1,5 +1,6 @@
 # C16 — configuration precedence: command line over environment over defaults (structural part; DESIGN.md §5 C16)
 import re
+from engine import core
 from engine.core import AnalysisBroken, P, T, callee_of, callee_short, cond_atoms, loc_of, strip, subexprs, block_path
 from engine.kinds import FactFlow, precedes_on_all_paths, eval_walk, cond_leaves, CountFlow, loop_of
 from .common import facts, lib
@@ -19,7 +20,7 @@ EXPLANATION = (
     "name - R8 - are followed to their consumer).")
 ASSUMPTIONS = ["program_options::variables_map::count(k) > 0 iff option k was given", "${ENV:default} placeholders in the default ini are expanded by the ini module from the environment"]
 THOROUGH_CONFIGS = [["-UNDEBUG", "-DPIKA_DEBUG"]]
-FLOORS = {"C16.R11": 1, "C16.R12": 8, "C16.R1": 11, "C16.R2": 10, "C16.R3": 8, "C16.R4": 3, "C16.R6": 1, "C16.R7": 1, "C16.R8": 1, "C16.R9": 8, "C16.R10": 1}
+FLOORS = {"C16.R11": 1, "C16.R12": 8, "C16.R1": 11, "C16.R2": 10, "C16.R3": 8, "C16.R4": 3, "C16.R6": 1, "C16.R7": 1, "C16.R8": 1, "C16.R9": 8, "C16.R10": 1, "C16.R13": 5, "C16.R14": 12}
 
 SETTINGS = [  # (command line option, ini key, environment variable, handler)
     ("pika:threads", "pika.os_threads", "PIKA_THREADS", "handle_num_threads"),
@@ -85,6 +86,65 @@ def run(rep, tier):
     CL = facts(rep, lib("command_line_handling", "src/command_line_handling.cpp"), [r"^pika::detail::"])
     LC = facts(rep, lib("command_line_handling", "src/late_command_line_handling.cpp"), [r"^pika::detail::"])
     RC = facts(rep, lib("runtime_configuration", "src/runtime_configuration.cpp"), [r"runtime_configuration::pre_initialize_ini$"])
+
+    # ---- R13: resolved values are not kept across runtime starts
+    rep.rule("C16.R13", "K8 (who may remember a setting): the code that resolves settings (command-line handling, runtime_configuration) keeps nothing it derived from the "
+             "command line, the configuration, the environment or the process mask in a function-local static: a static is initialised by the first runtime start of the "
+             "process and silently reused by every later pika::init/start, whose own command line and process mask then do not decide the value the runtime uses. (A static "
+             "built from literals only - a help text - is not a setting.)")
+    RCA = facts(rep, lib("runtime_configuration", "src/runtime_configuration.cpp"), [r"^pika::util::"])
+    n13 = 0
+    SENS = re.compile(r"\b(rtcfg_?|vm_?|cfgmap|get_entry|get_cpubind_mask\w*|get_topology|ini_config\w*|argv|argc|getenv|this)\b")
+    for Fx in (CL, PC, LC, RCA):
+        nfx = len([f for f in Fx.fns if not f.pattern and f.file.startswith(core.LIBS)])
+        if nfx:
+            rep.ok("C16.R13", [f for f in Fx.fns if not f.pattern and f.file.startswith(core.LIBS)][0], "%d functions of this unit scanned for function-local statics" % nfx, sites=nfx)
+        for f in Fx.fns:
+            if f.pattern:
+                continue
+            top = f
+            while top.parent != -1 and top.parent in Fx.by_id:
+                top = Fx.by_id[top.parent]
+            if not top.file.startswith(core.LIBS):
+                continue
+            n13 += 1
+            pnames = set(p_["name"] for p_ in (top.params or []) if p_.get("name"))
+            for b, i, e in f.all_events():
+                if not (e.get("k") == "decl" and e.get("static")):
+                    continue
+                txt = T(e.get("init")) if e.get("init") is not None else ""
+                # a lambda called in the initialiser: its body belongs to the initialiser
+                body = [g for g in Fx.fns if g.parent == f.id and g.loc.rsplit(":", 1)[0] == f.loc.rsplit(":", 1)[0] and loc_of(e).rsplit(":", 1)[-1] <= g.loc.rsplit(":", 1)[-1]]
+                for g in Fx.fns:
+                    if g.parent == f.id and ("lambda" in txt or "operator()" in txt):
+                        gl = int(g.loc.rsplit(":", 1)[-1]) if g.loc.rsplit(":", 1)[-1].isdigit() else -1
+                        el = int(loc_of(e).rsplit(":", 1)[-1]) if loc_of(e).rsplit(":", 1)[-1].isdigit() else -2
+                        if abs(gl - el) <= 3:
+                            txt += " " + " ".join(T(x) if x.get("k") == "call" else (T(x.get("e")) if x.get("k") == "read" else (T(x.get("init")) if x.get("k") == "decl" and x.get("init") is not None else ""))
+                                                  for _, _, x in g.all_events())
+                ids = set(re.findall(r"[A-Za-z_]\w*", txt))
+                locals_ = set(x.get("var") for _, _, x in f.all_events() if x.get("k") == "decl" and not x.get("static"))
+                why = None
+                if ids & pnames:
+                    why = "the function's argument '%s'" % sorted(ids & pnames)[0]
+                elif SENS.search(txt):
+                    why = "'%s'" % SENS.search(txt).group(0)
+                elif ids & locals_:
+                    why = "the local '%s' computed in this call" % sorted(ids & locals_)[0]
+                if why:
+                    rep.bad("C16.R13", f, loc_of(e), "static-setting:%s:%s" % (top.qname.rsplit("::", 1)[-1], e.get("var")), "%s keeps '%s' in a function-local static initialised from %s: the value "
+                            "is fixed by the first runtime start of the process; a later pika::init/start with another command line, configuration or process mask resolves its settings "
+                            "correctly but runs with the first start's value" % (top.qname, e.get("var"), why))
+                else:
+                    rep.ok("C16.R13", f, "static '%s' in %s is built from literals only" % (e.get("var"), top.qname))
+    if n13 < 20:
+        raise AnalysisBroken("C16.R13: only %d functions of the settings code examined" % n13)
+
+    # ---- R14 = C12.R6: the stack sizes the runtime uses are the resolved ones
+    rep.rule("C16.R14", "K8 (cache of configuration entries; the rule of C12.R6 seen from the settings side): the stack sizes the runtime allocates with are the members "
+             "runtime_configuration re-reads after every merge of configuration sources, each from the reader of its own class")
+    from .common import stack_size_cache_rule
+    stack_size_cache_rule(rep, "C16.R14")
 
     # O: registered options
     O = set()
